@@ -42,6 +42,9 @@ class Stepper(object):
     def __init__(self, case):
         self.h = Harness(case.get("config", {}))
         self.h.event("PRINT_STARTED")
+        # reference model of the property's condition (never read back from the plugin)
+        self.active = True
+        self.may_shrink = bool(case.get("config", {}).get("may_shrink"))
         self.accepted = self.refused = 0
         self.classes = set()
         self.n = 0
@@ -50,7 +53,7 @@ class Stepper(object):
         return {"nontrivial": self.accepted >= 1 and self.refused >= 1, "classes": sorted(self.classes)}
 
     def condition(self):
-        return bool(self.h.plugin.isActivePrintJob) and not self.h.plugin.mayShrinkRegionsWhilePrinting
+        return self.active and not self.may_shrink
 
     def step(self, op):  # pylint: disable=too-many-branches,too-many-locals
         out = []
@@ -60,10 +63,16 @@ class Stepper(object):
             out.append({"tag": tag, "msg": "op %r: %s" % (op, msg)})
 
         if op[0] == "setting":
-            h.update_settings(**{op[1]: op[2]})
+            h.update_settings(**{op[1]: op[2]})       # stores the value and delivers SETTINGS_UPDATED
+            if op[1] == "mayShrinkRegionsWhilePrinting":
+                self.may_shrink = bool(op[2])
             return out
         if op[0] == "event":
             h.event(op[1])
+            if op[1] == "PRINT_STARTED":
+                self.active = True
+            elif op[1] in ("PRINT_DONE", "PRINT_FAILED", "PRINT_CANCELLING", "PRINT_CANCELLED", "ERROR"):
+                self.active = False
             return out
         cond = self.condition()
         before = h.regions()
@@ -177,11 +186,17 @@ def machine(tier, col):  # pylint: disable=unused-argument
         def setup(self, debug):
             self._init_case({"config": {"may_shrink": False, "debug": debug}})
 
-        @rule(rect=st.booleans(), a=coord, b=coord, w=st.sampled_from([0.0, 1.0, 4.0, 10.5]), h=st.sampled_from([0.0, 2.0, 6.0]))
-        def add(self, rect, a, b, w, h):
+        @rule(rect=st.booleans(), a=coord, b=coord, w=st.sampled_from([0.0, 1.0, 4.0, 10.5]), h=st.sampled_from([0.0, 2.0, 6.0]),
+              order=st.integers(0, 3))
+        def add(self, rect, a, b, w, h, order):
             n = len(self.case["ops"])
             if rect:
-                data = {"type": "RectangularRegion", "x1": a, "y1": b, "x2": a + w, "y2": b + h, "id": "r%d" % n}
+                xs, ys = (a, a + w), (b, b + h)
+                if order & 1:
+                    xs = (xs[1], xs[0])       # corners may be given in any order
+                if order & 2:
+                    ys = (ys[1], ys[0])
+                data = {"type": "RectangularRegion", "x1": xs[0], "y1": ys[0], "x2": xs[1], "y2": ys[1], "id": "r%d" % n}
             else:
                 data = {"type": "CircularRegion", "cx": a, "cy": b, "r": w, "id": "r%d" % n}
             self.do(["api", "addExcludeRegion", data])
